@@ -492,3 +492,6 @@ REWRITES = [
 
 MUTANTS.append(Mutant("receive-record-fast-path-truthy", TR, "    def receive_record(self):\n        d = defer.Deferred()", "    def receive_record(self):\n        record = (self._inbound_records.popleft()\n                  if self._inbound_records else None)\n        if record:\n            return defer.succeed(record)\n        d = defer.Deferred()", "C06.R7"))
 MUTANTS.append(Mutant("handshake-timer-sender-only", TR, "        self.state = \"records\"\n        self.setTimeout(None)\n", "        self.state = \"records\"\n        if self.owner.is_sender:\n            self.setTimeout(None)\n", "C06.R9", "seed C06-17"))
+
+MUTANTS.append(Mutant("receive-record-timeout", TR, "        d = defer.Deferred()\n        self._waiting_reads.append(d)\n", "        d = defer.Deferred()\n        d.addTimeout(30, self.owner._reactor)\n        self._waiting_reads.append(d)\n", "C06.R11", "seed C06-18"))
+MUTANTS.append(Mutant("records-only-fast-path", TR, "        self.state = \"records\"\n        self.setTimeout(None)\n", "        self.state = \"records\"\n        self._dataReceived = self.dataReceivedRECORDS\n        self.setTimeout(None)\n", ("C06.R10", "C06.R"), "seed C06-19"))
